@@ -38,7 +38,7 @@ class A(Adapter):
     def build(self, c):
         from jumanji.environments import Snake
         kw = {} if c.get("tl") is None else {"time_limit": c["tl"]}
-        env = Snake(num_rows=c["r"], num_cols=c["c"], **kw)
+        env = Snake(c["r"], c["c"], c["tl"]) if c.get("tl") == 2 else Snake(num_rows=c["r"], num_cols=c["c"], **kw)  # (time_limit = 2 configurations pass the documented leading parameters positionally)
         if c.get("mirror"):  # wrapped environment (C13/C14 only)
             from jsim import fakes
             env = fakes.mirror_obs_wrapper(env)
